@@ -28,6 +28,19 @@ def run(rep, prog, tier):
     rep.rule('C12.4', 'S2K parse and __bytearray__ carry the same fields per specifier', floor=4)
     rep.assume('hashlib hashers are sequential: h.update(a); h.update(b) == h.update(a + b)')
 
+    check_derive_key(rep, prog)
+    # C12.3
+    s2kshape.check_count(rep, prog, 'C12.3')
+    # C12.4
+    s2kshape.check_s2k_codec(rep, prog, 'C12.4')
+
+
+R1, R2 = 'C12.1', 'C12.2'
+
+
+def check_derive_key(rep, prog, r1='C12.1', r2='C12.2'):
+    global R1, R2
+    R1, R2 = r1, r2
     fi = prog.method('pgpy.packet.fields', 'String2Key', 'derive_key')
     rep.saw(fn=fi)
     for spec, salted in (('Simple', False), ('Salted', True), ('Iterated', True)):
@@ -42,7 +55,7 @@ def run(rep, prog, tier):
             want_paths = 2 if spec == 'Iterated' else 1
             scen = '%s x %s passphrase' % (spec, ptype)
             if len(outs) != want_paths:
-                rep.violation('C12.1', 'String2Key.derive_key', '%s: %d paths' % (scen, len(outs)),
+                rep.violation(R1, 'String2Key.derive_key', '%s: %d paths' % (scen, len(outs)),
                               'expected %d path(s) for %s (the iterated form forks on count > len(salt+passphrase))' % (want_paths, scen),
                               where=fi.where, scenario=scen, found=[s.facts for s in outs])
                 continue
@@ -54,16 +67,12 @@ def run(rep, prog, tier):
                         okc = tt in (strip('((String2KeyType.Iterated == String2KeyType.Iterated) and (self.count > len(%s)))' % UNIT),
                                      strip('(self.count > len(%s))' % UNIT),
                                      strip('((String2KeyType.Iterated == String2KeyType.Iterated) and (self.count >= len(%s)))' % UNIT))
-                        rep.check(okc, 'C12.1', 'String2Key.derive_key', '%s: branch %s' % (scen, t),
+                        rep.check(okc, R1, 'String2Key.derive_key', '%s: branch %s' % (scen, t),
                                   'the iterated count applies exactly when it exceeds one full copy of salt+passphrase', where=fi.where,
                                   expected='self.count > len(%s)' % UNIT, found=t, scenario=scen)
                         big = v
                 COUNT = 'self.count' if big else 'len(%s)' % UNIT
                 check_shape(rep, fi, s, scen + (' (count arm)' if big else ''), unit_items, UNIT, COUNT)
-    # C12.3
-    s2kshape.check_count(rep, prog, 'C12.3')
-    # C12.4
-    s2kshape.check_s2k_codec(rep, prog, 'C12.4')
 
 
 def check_shape(rep, fi, s, scen, unit_items, UNIT, COUNT):
@@ -72,7 +81,7 @@ def check_shape(rep, fi, s, scen, unit_items, UNIT, COUNT):
     found = render(ret) if ret is not None else '<none>'
 
     def bad(msg, exp=None):
-        rep.violation('C12.1', c, '%s: %s' % (scen, msg), 'S2K structure differs from RFC 4880 3.7.1: %s' % msg, where=fi.where,
+        rep.violation(R1, c, '%s: %s' % (scen, msg), 'S2K structure differs from RFC 4880 3.7.1: %s' % msg, where=fi.where,
                       expected=exp, found=found, scenario=scen)
     if not isinstance(ret, Bytes):
         return bad('result is not a byte string')
@@ -83,7 +92,7 @@ def check_shape(rep, fi, s, scen, unit_items, UNIT, COUNT):
     if sl[2] not in ('', '0') or strip(sl[3]) not in ('(self.encalg.key_size//8)', '(keylen//8)'):
         bad('truncation is [%s:%s], expected [:key_size // 8]' % (sl[2], sl[3]), '[:self.encalg.key_size // 8]')
     else:
-        rep.ok('C12.1', c, 'truncated to key_size // 8', scenario=scen)
+        rep.ok(R1, c, 'truncated to key_size // 8', scenario=scen)
     inner = sl[1]
     if len(inner) != 1 or inner[0][0] != 'EACH':
         return bad('digests are not produced by one loop over the contexts')
@@ -96,19 +105,19 @@ def check_shape(rep, fi, s, scen, unit_items, UNIT, COUNT):
                      strip('range(0, math.ceil((self.encalg.key_size / (self.halg.digest_size * 8))))'),
                      strip('range(math.ceil((self.encalg.key_size / (self.halg.digest_size * 8))))'),
                      strip('range(0, -((-self.encalg.key_size) // (self.halg.digest_size * 8)))'))
-    rep.check(ok_ctx, 'C12.2', c, '%s: contexts %s' % (scen, coll),
+    rep.check(ok_ctx, R2, c, '%s: contexts %s' % (scen, coll),
               'the number of hash contexts must be ceil(key bits / digest bits), numbered from 0', where=fi.where,
               expected='range(0, ceil(key_size / (digest_size * 8)))', found=coll, scenario=scen)
     if len(body) != 1 or body[0][0] != 'HASH':
         return bad('loop body is not one digest per context (joined in context order)')
     h = body[0]
-    rep.check(h[1] == 'self.halg', 'C12.1', c, '%s: hash algorithm %s' % (scen, h[1]), 'contexts use the specifier\'s hash algorithm',
+    rep.check(h[1] == 'self.halg', R1, c, '%s: hash algorithm %s' % (scen, h[1]), 'contexts use the specifier\'s hash algorithm',
               where=fi.where, expected='self.halg', found=h[1], scenario=scen)
     hi = merge_consts(h[2])
     # preload: REP(00; i)
     if not hi or hi[0][0] != 'REP' or render_items(hi[0][1]) != 'C(00)' or hi[0][2] != var:
         return bad('context %s is not preloaded with %s zero octets: %s' % (var, var, render_items(hi[:1])), 'REP(C(00);%s)' % var)
-    rep.ok('C12.1', c, 'context i preloaded with i zero octets', scenario=scen)
+    rep.ok(R1, c, 'context i preloaded with i zero octets', scenario=scen)
     stream = hi[1:]
     # STREAM = REP(UNIT; q) SLICE(UNIT;;r)
     if len(stream) != 2 or stream[0][0] != 'REP' or stream[1][0] != 'SLICE':
@@ -118,13 +127,13 @@ def check_shape(rep, fi, s, scen, unit_items, UNIT, COUNT):
     r_lo, r = stream[1][2], strip(stream[1][3])
     if rep_unit != UNIT or sl_unit != UNIT:
         return bad('stream unit is %s / %s' % (rep_unit, sl_unit), UNIT)
-    rep.ok('C12.1', c, 'stream unit = %s' % UNIT, scenario=scen)
+    rep.ok(R1, c, 'stream unit = %s' % UNIT, scenario=scen)
     L = strip('len(%s)' % UNIT)
     Cn = strip(COUNT)
     q_ok = q in ('(%s//%s)' % (Cn, L), 'divmod(%s,%s)[0]' % (Cn, L))
     r_ok = r in ('(%s-((%s//%s)*%s))' % (Cn, Cn, L, L), '(%s%%%s)' % (Cn, L), 'divmod(%s,%s)[1]' % (Cn, L),
                  '(%s-(%s*(%s//%s)))' % (Cn, L, Cn, L)) and r_lo in ('', '0')
-    rep.check(q_ok and r_ok, 'C12.1', c, '%s: stream length q=%s r=%s' % (scen, stream[0][2], stream[1][3]),
+    rep.check(q_ok and r_ok, R1, c, '%s: stream length q=%s r=%s' % (scen, stream[0][2], stream[1][3]),
               'the stream must be exactly COUNT = %s octets: full copies = COUNT // len(unit), remainder = COUNT %% len(unit)' % COUNT,
               where=fi.where, expected='q = %s // len(unit), r = %s - q * len(unit)' % (COUNT, COUNT),
               found='q = %s, r = %s' % (stream[0][2], stream[1][3]), scenario=scen)
